@@ -154,6 +154,9 @@ def run(ctx):
             cfgs.append(cfg)
         # many dimensions at the extreme scales (NW = 60, sensor variances up to 1e12)
         cfgs += tu.high_dimensional_configs(ctx.rng, (1e6, 10 ** 4.5) if ctx.quick() else (1e6, 10 ** 4.5, 1e3, 1e-2, 1e5))
+        # exactly collinear sensors with a light penalty: solves that run out of their budget (the return path after the
+        # last sweep, not the one after the stopping rule), with and without a listener on the DEBUG diagnostics
+        cfgs += tu.degenerate_configs(ctx.rng, 6 if ctx.quick() else 24)
         floors = [{"floor": True, "n": ctx.rng.randint(1, 6), "seed": ctx.rng.randrange(2 ** 31),
                    "eps": str(Fraction(ctx.rng.choice([0, 1, 3, 8]), 16))} for _ in range(60 if ctx.quick() else 600)]
     import random as pyrandom
@@ -228,6 +231,10 @@ def run(ctx):
                           f"{' with a singleton initial cluster' if cfg.get('singleton_init') else ''}: {b}",
                           cfg, {"site": "result-finite"})
         ctx.count("runs_checked")
+        if cfg.get("logging"):
+            ctx.count("runs_with_debug_logging")
+        if cfg.get("duplicate_sensor"):
+            ctx.count("runs_with_collinear_sensors")
         if cfg.get("singleton_init"):
             ctx.count("runs_singleton_init")
         ctx.case(("cfg", repr(sorted(cfg.items()))), nontrivial=cfg["scale"] != 1.0 or bool(cfg.get("singleton_init")))
